@@ -1,0 +1,96 @@
+//go:build verif
+
+// Contracts for gzv (contract-based deductive verification, /verif). Comment-only file.
+package limit
+
+// ---------------------------------------------------------------------------------------------
+// C03 rate limiters. Both scripts are verified against an abstract Redis (has, num, ttl per key); by the atomic-script
+// rule what holds for one run from any state holds under every interleaving of clients sharing the key.
+// ---------------------------------------------------------------------------------------------
+
+// Period limiter: count(key) = num(1) while the key is unexpired. The k-th request of a period sees count == k-1.
+//@ lua periodscript.lua
+//@   property C03
+//@   keys 1
+//@   args 2
+//@   intargs 1 2
+//@   requires argn(2) >= 1
+//@   requires implies(has(1), isint(num(1)) && num(1) >= 1 && ttl(1) > 0)
+//@   let limit = argn(1)
+//@   let count = ite(has(1), num(1), 0)
+//@   ensures has(1) && num(1) == count + 1 && isint(num(1)) && ttl(1) > 0
+//@   ensures rnum() == ite(count + 1 < limit, 1, ite(count + 1 == limit, 2, 0))
+//@   ensures implies(!old(has(1)), ttl(1) == argn(2)*1000)
+//@   ensures implies(old(has(1)), ttl(1) == old(ttl(1)))
+
+// Token bucket: tokens = num(1) (capacity when absent), ts = num(2) (0 when absent); both keys are written together with the
+// same TTL, so they are present or absent together (precondition, re-established by every run).
+//@ lua tokenscript.lua
+//@   property C03
+//@   keys 2
+//@   args 4
+//@   intargs 1 2 3 4
+//@   requires argn(1) >= 1 && argn(2) >= 0 && argn(4) >= 0
+//@   requires has(1) == has(2)
+//@   requires implies(has(1), 0 <= num(1) && num(1) <= argn(2))
+//@   let rate = argn(1)
+//@   let capacity = argn(2)
+//@   let now = argn(3)
+//@   let requested = argn(4)
+//@   let tokens = ite(has(1), num(1), capacity)
+//@   let ts = ite(has(2), num(2), 0)
+//@   let filled = min(capacity, tokens + max(0, now - ts)*rate)
+//@   ensures rtrue() == (filled >= requested)
+//@   ensures has(1) && has(2) && num(2) == now
+//@   ensures num(1) == ite(filled >= requested, filled - requested, filled) && 0 <= num(1) && num(1) <= capacity
+//@   ensures ttl(1) == ttl(2) && ttl(1) >= 1000 && ttl(1)*rate >= capacity*1000
+
+// History-level statement as an inductive invariant over script runs (G = tokens granted since t0, while time advances):
+//   0 <= tokens <= burst  and  G + tokens <= burst + rate*(ts - t0)
+// hence over any interval the instances sharing the key jointly grant at most burst + rate*elapsed.
+//@ lemma token_bound(G float64, tokens float64, ts float64, t0 float64, now float64, rate float64, burst float64, n float64)
+//@   property C03
+//@   hyp rate >= 1 && burst >= 0 && n >= 0 && now >= ts && ts >= t0
+//@   hyp 0 <= tokens && tokens <= burst && G + tokens <= burst + rate*(ts-t0)
+//@   goal G + ite(min(burst, tokens+(now-ts)*rate) >= n, n, 0) + ite(min(burst, tokens+(now-ts)*rate) >= n, min(burst, tokens+(now-ts)*rate) - n, min(burst, tokens+(now-ts)*rate)) <= burst + rate*(now-t0)
+// Key expiry is invisible: after ttl seconds without a run the bucket would have been full anyway (ttl*rate >= burst).
+//@ lemma token_expiry(tokens float64, ts float64, now float64, rate float64, burst float64, ttl float64)
+//@   property C03
+//@   hyp rate >= 1 && burst >= 0 && 0 <= tokens && tokens <= burst && ttl*rate >= burst && now - ts >= ttl
+//@   goal min(burst, tokens+(now-ts)*rate) == burst
+
+//@ func (h *PeriodLimit) calcExpireSeconds
+//@   property C03
+//@   requires h.period >= 1
+//@   ensures 1 <= result && result <= h.period
+//@   modifies nothing
+
+//@ func (h *PeriodLimit) TakeCtx
+//@   property C03
+//@   results code, err
+//@   requires h.period >= 1
+//@   call ScriptRunCtx#0: assert arg_script == periodScript && len(arg_keys) == 1 && arg_keys[0] == h.keyPrefix + key
+//@   call ScriptRunCtx#0: assert len(raw3) == 2 && raw3[0] == strconv.Itoa(h.quota)
+//@   ensures implies(scriptErr != nil, code == Unknown && err == scriptErr)
+//@   ensures implies(err == nil, scriptErr == nil && code == ite(int64(scriptResp.(int64)) == 1, Allowed, ite(int64(scriptResp.(int64)) == 2, HitQuota, OverQuota)))
+//@   ensures implies(err == nil, int64(scriptResp.(int64)) == 0 || int64(scriptResp.(int64)) == 1 || int64(scriptResp.(int64)) == 2)
+//@   ensures implies(err != nil, code == Unknown)
+//@   ensures scriptCalls == old(scriptCalls) + 1
+//@   modifies scriptResp, scriptErr, scriptCalls
+
+//@ func (lim *TokenLimiter) reserveN
+//@   property C03
+//@   flag nolock
+//@   call ScriptRunCtx#0: assert arg_script == tokenScript && len(arg_keys) == 2 && arg_keys[0] == lim.tokenKey && arg_keys[1] == lim.timestampKey
+//@   call ScriptRunCtx#0: assert len(raw3) == 4 && raw3[0] == strconv.Itoa(lim.rate) && raw3[1] == strconv.Itoa(lim.burst) && raw3[3] == strconv.Itoa(n)
+//@   ensures implies(old(lim.redisAlive) == 0, result == localVerdict && scriptCalls == old(scriptCalls))
+//@   ensures implies(old(lim.redisAlive) != 0, scriptCalls == old(scriptCalls) + 1)
+//@   ensures implies(old(lim.redisAlive) != 0 && scriptErr != nil && (errors.Is(scriptErr, redis.Nil) || errors.Is(scriptErr, context.DeadlineExceeded) || errors.Is(scriptErr, context.Canceled)), !result)
+//@   ensures implies(old(lim.redisAlive) != 0 && scriptErr != nil && result, result == localVerdict)
+//@   ensures implies(old(lim.redisAlive) != 0 && scriptErr == nil && result, int64(scriptResp.(int64)) == 1 || (result == localVerdict))
+
+//@ func (lim *TokenLimiter) startMonitor
+//@   property C03
+//@   flag nolock
+//@   ensures lim.redisAlive == 0 || old(lim.monitorStarted)
+//@   modifies lim.monitorStarted, lim.redisAlive
